@@ -33,6 +33,7 @@ ASSUMPTIONS = [
     'an integer literal where the element type says float is labelled free '
     '(the statement does not say whether 1 is a wrong-typed 1.0)',
 ]
+ANCHORS = ['TableValidator._validate_json', 'TableValidator._validate_hdf5', 'TableValidator._valid_sparse_data', 'TableValidator._valid_dense_data', 'TableValidator._valid_rows', 'TableValidator._valid_columns', 'TableValidator._valid_hdf5_metadata_v210', 'Table.to_json', 'Table.to_hdf5']
 REQUIRED = ['accept_json', 'accept_hdf5', 'accept_after_load', 'accept_cli', 'json_mutants',
             'hdf5_mutants', 'pair_mutants', 'must_reject_checked',
             'accepted_and_loaded']
